@@ -29,7 +29,9 @@ def neg(ex, p, v):
             return VFloat(z3.fpNeg(v.t))
         return VFloat(-v.t, v.prov)
     if isinstance(v, VMpf):
-        return VMpf(-v.t, v.dy, v.err, v.mag)
+        if v.rational():
+            return VMpf(-v.num, v.den, err=v.err)
+        return VMpf(None, 1, t=-v.t, err=v.err, mag=v.mag)
     raise EngineError(f'negation of {v!r}')
 
 
@@ -67,6 +69,8 @@ def _dy(prov):
         return prov[1]
     if prov[0] == 'int':
         return 0
+    if prov[0] == 'idiv' and z3.is_int_value(prov[2]) and is_pow2(abs(prov[2].as_long())):
+        return abs(prov[2].as_long()).bit_length() - 1
     return None
 
 
@@ -188,14 +192,18 @@ def binop(ex, p, opn, a, b, node=None):
                 continue
             val = x / y
             prov = None
-            if fb.conc() and is_pow2(fb.t.numerator) and fb.t.denominator == 1 and ka is not None:
+            b_int = b if isinstance(b, VInt) else (VInt(int(fb.t)) if fb.conc() and fb.t.denominator == 1 else None)
+            a_int = a if isinstance(a, VInt) else (VInt(pa[1]) if pa is not None and pa[0] == 'int' else None)
+            if a_int is not None and b_int is not None:
+                prov = ('idiv', a_int.z(), b_int.z())
+                if track and b_int.conc() and is_pow2(abs(b_int.t)):
+                    _exact_ob(ex, q, fa.z(), 0, 'int->float')
+            elif fb.conc() and is_pow2(fb.t.numerator) and fb.t.denominator == 1 and ka is not None:
                 prov = ('dy', ka + fb.t.numerator.bit_length() - 1)
                 if track:
                     if pa is not None and pa[0] == 'int':
                         _exact_ob(ex, q, fa.z(), 0, 'int->float')
                     _exact_ob(ex, q, val, prov[1], f'Div@L{getattr(node, "lineno", "?")}')
-            elif isinstance(a, VInt) and isinstance(b, VInt):
-                prov = ('idiv', a.z(), b.z())
             yield q, VFloat(val, prov)
         return
     if opn in ('FloorDiv', 'Mod'):
@@ -249,6 +257,14 @@ def float_to_int(ex, p, v, mode, node=None):
         f = v.t
         r = {'trunc': math.trunc(f), 'floor': math.floor(f), 'ceil': math.ceil(f), 'round': round(f)}[mode]
         return VInt(int(r))
+    if prov is not None and prov[0] == 'idiv' and z3.is_int_value(prov[2]) and prov[2].as_long() > 0 and mode != 'round':
+        # integer formula for trunc/floor/ceil of a/b, b a positive literal (no ToReal/ToInt round trip)
+        a_t, b_c = prov[1], prov[2].as_long()
+        if mode == 'floor':
+            return VInt(a_t / b_c)
+        if mode == 'ceil':
+            return VInt(-((-a_t) / b_c))
+        return VInt(z3.If(a_t >= 0, a_t / b_c, -((-a_t) / b_c)))
     from .engine import z_trunc, z_floor, z_ceil, z_round_half_even
     t = v.z()
     return VInt({'trunc': z_trunc, 'floor': z_floor, 'ceil': z_ceil, 'round': z_round_half_even}[mode](t))
@@ -265,7 +281,9 @@ def num_abs(ex, p, v):
             return VFloat(z3.fpAbs(v.t))
         return VFloat(abs(v.t) if v.conc() else z_abs(v.z()), v.prov)
     if isinstance(v, VMpf):
-        return VMpf(abs(v.t) if v.conc() else z_abs(v.z()), v.dy, v.err, v.mag)
+        if v.rational():
+            return VMpf(abs(v.num) if v.conc() else z_abs(v.num), v.den, err=v.err)
+        return VMpf(None, 1, t=(abs(v.t) if v.conc() else z_abs(v.z())), err=v.err, mag=v.mag)
     raise EngineError(f'abs of {v!r}')
 
 
